@@ -137,12 +137,15 @@ class _AdaByronAddrAttrs(NamedTuple):
             ValueError: If the dictionary is not valid
         """
         if (len(attrs_dict) > 2
-                or (len(attrs_dict) != 0 and 1 not in attrs_dict and 2 not in attrs_dict)):
+                or (len(attrs_dict) != 0 and 1 not in attrs_dict and 2 not in attrs_dict)
+                or any(not isinstance(attr_val, bytes) for attr_val in attrs_dict.values())):
             raise ValueError("Invalid address attributes")
-        return cls(
-            cbor2.loads(attrs_dict[1]) if 1 in attrs_dict else None,    # type: ignore [arg-type]
-            cbor2.loads(attrs_dict[2]) if 2 in attrs_dict else None     # type: ignore [arg-type]
-        )
+        hd_path_enc_bytes = cbor2.loads(attrs_dict[1]) if 1 in attrs_dict else None
+        network_magic = cbor2.loads(attrs_dict[2]) if 2 in attrs_dict else None
+        if ((hd_path_enc_bytes is not None and not isinstance(hd_path_enc_bytes, bytes))
+                or (network_magic is not None and not isinstance(network_magic, int))):
+            raise ValueError("Invalid address attributes")
+        return cls(hd_path_enc_bytes, network_magic)
 
     def ToDict(self) -> Dict[int, bytes]:
         """
@@ -219,7 +222,8 @@ class _AdaByronAddrPayload(NamedTuple):
             ValueError: If the serialization is not valid
         """
         addr_payload: Tuple[bytes, Dict[int, bytes], int] = cbor2.loads(ser_payload_bytes)  # type: ignore [assignment]
-        if (len(addr_payload) != 3
+        if (not isinstance(addr_payload, (list, tuple))
+                or len(addr_payload) != 3
                 or not isinstance(addr_payload[0], bytes)
                 or not isinstance(addr_payload[1], dict)
                 or not isinstance(addr_payload[2], int)):
@@ -295,8 +299,10 @@ class _AdaByronAddr(NamedTuple):
             ValueError: If the serialization is not valid
         """
         addr_bytes: Tuple[cbor2.CBORTag, int] = cbor2.loads(ser_addr_bytes)     # type: ignore [assignment]
-        if (len(addr_bytes) != 2
+        if (not isinstance(addr_bytes, (list, tuple))
+                or len(addr_bytes) != 2
                 or not isinstance(addr_bytes[0], cbor2.CBORTag)
+                or not isinstance(addr_bytes[0].value, bytes)
                 or not isinstance(addr_bytes[1], int)):
             raise ValueError("Invalid address encoding")
         # Get and check CBOR tag
@@ -429,7 +435,7 @@ class AdaByronAddrDecoder(IAddrDecoder):
             return dec_addr.payload.root_hash_bytes + (dec_addr.payload.attrs.hd_path_enc_bytes
                                                        if dec_addr.payload.attrs.hd_path_enc_bytes is not None
                                                        else b"")
-        except cbor2.CBORDecodeValueError as ex:
+        except cbor2.CBORDecodeError as ex:
             raise ValueError("Invalid CBOR encoding") from ex
 
 
